@@ -1,4 +1,4 @@
-import FxVerif.Proofs.C13Inv
+import FxVerif.Proofs.C13Stake
 /-!
 # C13 — oracle registry one-to-one; stake recoverable; only missed signing is slashed
 
@@ -89,6 +89,49 @@ theorem stake_within_bounds (p : Params) (bals : Store Nat Nat) (ops : List Op) 
     (run (init p bals) ops).p.thr ≤ o.amount ∧ o.amount ≤ (run (init p bals) ops).p.thr * (run (init p bals) ops).p.mult := by
   have hi := run_inv slashing_code_facts guard_code_facts ops _ (init_inv p bals)
   exact (hi.recs a o h).2.2
+
+/-! ## stake accounting -/
+
+/-- **stake_accounting**: in every state reachable WITHOUT a validator slash (and with a positive stake threshold), for
+every oracle record that governance has never removed (ghost `undel = 0`: nothing was ever undelegated from it by
+`UpdateProposalOracles`): the recorded `DelegateAmount` is exactly what is delegated from the oracle's delegate address to
+its `DelegateValidator`, and exactly what the oracle transferred by `BondedOracle` / `AddDelegate` (ghost `sent`, net of
+the burned penalty).  Induction over the op list with the invariants `Inv`, `FitInv`, `StakeInv`. -/
+theorem stake_accounting (p : Params) (bals : Store Nat Nat) (ops : List Op) (hthr : 0 < p.thr)
+    (hops : ops.all noValSlash = true) (a : Nat) (r : Oracle)
+    (hr : Store.get (run (init p bals) ops).oracles a = some r)
+    (hnever : (ghOf (run (init p bals) ops) a).undel = 0) :
+    Store.get (run (init p bals) ops).deleg (a, r.val) = some r.amount ∧
+    (ghOf (run (init p bals) ops) a).sent = r.amount := by
+  have hall := run_all slashing_code_facts guard_code_facts ops (init p bals) hthr hops
+    ⟨init_inv p bals, init_fit p bals, init_stake p bals⟩
+  exact hall.stake.acc a r hr hnever
+
+/-- a delegate address only ever delegates to the validator its oracle record names, and only while the record exists -/
+theorem stake_only_to_recorded_validator (p : Params) (bals : Store Nat Nat) (ops : List Op) (hthr : 0 < p.thr)
+    (hops : ops.all noValSlash = true) (o v t : Nat)
+    (h : Store.get (run (init p bals) ops).deleg (o, v) = some t) :
+    ∃ r, Store.get (run (init p bals) ops).oracles o = some r ∧ r.val = v := by
+  have hall := run_all slashing_code_facts guard_code_facts ops (init p bals) hthr hops
+    ⟨init_inv p bals, init_fit p bals, init_stake p bals⟩
+  exact hall.stake.own o v t h
+
+/-- an oracle that is off the governance list has nothing delegated any more: removal undelegated all of it (the stake is
+in unbonding entries or already back at the delegate address, from where `stake_recoverable` pays it out) -/
+theorem removed_oracle_has_no_delegation (p : Params) (bals : Store Nat Nat) (ops : List Op) (hthr : 0 < p.thr)
+    (hops : ops.all noValSlash = true) (a : Nat) (r : Oracle)
+    (hr : Store.get (run (init p bals) ops).oracles a = some r) (hoff : a ∉ (run (init p bals) ops).proposal) :
+    Store.get (run (init p bals) ops).deleg (a, r.val) = none := by
+  have hall := run_all slashing_code_facts guard_code_facts ops (init p bals) hthr hops
+    ⟨init_inv p bals, init_fit p bals, init_stake p bals⟩
+  exact hall.stake.out a r hr hoff
+
+/-- every online oracle is on the governance list (so "only oracles approved by governance" hold stake that counts) -/
+theorem online_requires_approval (p : Params) (bals : Store Nat Nat) (ops : List Op) (a : Nat) (r : Oracle)
+    (hr : Store.get (run (init p bals) ops).oracles a = some r) (hon : r.online = true) :
+    a ∈ (run (init p bals) ops).proposal := by
+  have hf := run_fit slashing_code_facts guard_code_facts ops _ (init_fit p bals)
+  exact hf.onl (a, r) (mem_of_get _ _ _ hr) hon
 
 /-! ## penalty -/
 
@@ -241,5 +284,14 @@ example : (step (run (init pEx bEx) (life.take 2)) (.bond 1 1 0 0 100)).2 = .err
 def aged : State := run (init pEx bEx) [.gov [0, 1], .bond 0 0 0 0 100, .bond 1 1 1 0 100, .mkcall, .conf .call 1 1 1 true, .block 5, .conf .os 1 0 0 true, .conf .os 1 1 1 true, .block 5, .block 5]
 example : ((Store.get (block aged 5).1.oracles 0).map (·.online), (Store.get (block aged 5).1.oracles 1).map (·.online)) =
     (some false, some true) := by decide
+
+-- stake_accounting: hypotheses satisfiable, and the `undel = 0` hypothesis cannot be dropped — the known finding as a
+-- model witness: removal + re-approval + AddDelegate leaves DelegateAmount = 100 + 100 while only 100 is delegated
+def reapproved : State := run (init pEx bEx) (life.take 6 ++ [.gov [0, 1, 2, 3], .add 0 100])
+example : life.all noValSlash = true ∧ 0 < pEx.thr := by decide
+example : (ghOf (run (init pEx bEx) (life.take 5)) 0).undel = 0 ∧
+    Store.get (run (init pEx bEx) (life.take 5)).deleg (0, 0) = some 100 := by decide
+example : ((Store.get reapproved.oracles 0).map (fun r => (r.amount, r.online)), Store.get reapproved.deleg (0, 0),
+    (ghOf reapproved 0).undel) = (some (200, true), some 100, 100) := by decide
 
 end FxVerif.Props.C13
